@@ -11,6 +11,10 @@ CLAIMED = {
          "Every mutator sequence up to length 4 (quick) / 5 (thorough) over two values and all positions 0..len+2 is enumerated with every observer applied at every reached state, and long random sequences (i32 and nested Item elements) are compared step by step with a Vec model: return values and full contents. Exploration, not proof: longer sequences are sampled.",
          "Trusted: the Vec model in harness/src/props/c16.rs (written from the doc comments of stack.rs); raw swap(i,j) excluded (documented as vector indices).",
          "DESIGN.md section 4, C16"),
+ "C17": ("model-based PBT: exhaustive + random PushBuffer histories against a bounded VecDeque model; INPUT/OUTPUT instruction sequences lock-step against a reference interpreter",
+         "All mutator histories of length 6 (quick) / 8 (thorough) for capacity 1..3 and both buffer kinds, with every observer after every mutator, plus long random histories (capacity 1..5, many wrap-arounds) and random INPUT.*/OUTPUT.* programs over 0..10 messages compared after every step. Exploration: longer histories and larger capacities are sampled.",
+         "Trusted: the VecDeque model and the IO part of the reference interpreter (harness/src/refmodel2.rs). Print order is undocumented and compared as a multiset; OUTPUT.WRITE on a full queue is not value-checked.",
+         "DESIGN.md section 4, C17"),
 }
 PENDING_REASON = "check not built yet in this round (work in progress, see DESIGN.md section 4 for the planned check)"
 
